@@ -11,7 +11,8 @@ import Driver.DomH
         [C05][ub-leq] / [C05][lub-leq]   `y_i <= x_i` / `x_{i-1} <= x_i` answered no (verdict
                       `imprecise`: no concrete state outside the result was found, the inclusion
                       test itself may be incomplete)
-        [C05][chain]  the chain has no stationary suffix (`x_i <= x_{i-1}` fails in the last 20 steps)
+        [C05][chain]  the chain has no stationary suffix (`x_i <= x_{i-1}` fails in the last 20 steps and at least
+                      4 times in the last 40: an isolated late step is not divergence)
         [C05][leq-trans] `y_i <= x_i`, `x_i <= x_{i-1}` answered yes but `y_i <= x_{i-1}` no
   `wchain.narrow` : z_i = z_{i-1} && y_i with y_i = F(z_{i-1}) & z_{i-1}:
         [C05][narrow] a witness of y_i (a state of F(z_{i-1}) that is also in z_{i-1}) violates z_i
@@ -321,7 +322,10 @@ def handleRun (dom : String) (mode nsteps : Sexp) (seed steps : List Sexp) (acc 
     | some (.list [.atom "fin", .atom kind, kk]) =>
       if kk.nat? != some k || (kind == "diverge") != (k + 20 > n) then throw (.bad s!"wchain.run fin: recomputed {k}")
     | _ => throw (.bad "wchain.run fin")
-    if k + 20 > n then
+    -- an isolated late step (a threshold crossed near the end, a wrap-around reached late) is not divergence: the
+    -- chain must still be moving repeatedly at the end (>= 4 non-stationary steps among the last 40)
+    let late := ((List.range n).filter (fun i => i + 40 ≥ n && !(st.getD i true))).length
+    if k + 20 > n && late ≥ 4 then
       let kc := stableFrom cov
       let changes := (st.toList.filter (!·)).length
       let what := if kc + 20 > n then s!"the iterator's test y_i <= x_i-1 still fails at step {kc - 1}"
@@ -405,7 +409,6 @@ def handleWint (w mode nsteps x0 : Sexp) (res : List Sexp) : Verdict :=
   | [.atom "err"] => .skip "wchain.wint: CRAB_ERROR raised"
   | _ =>
   let r : Except Verdict Unit := do
-    let _ := mode
     let some w := w.nat? | throw (.bad "wchain.wint width")
     let some n := nsteps.nat? | throw (.bad "wchain.wint nsteps")
     let some x0 := parseWI x0 | throw (.bad "wchain.wint x0")
@@ -451,8 +454,12 @@ def handleWint (w mode nsteps x0 : Sexp) (res : List Sexp) : Verdict :=
     | some (.list [.atom "fin", .atom kind, kk]) =>
       if kk.nat? != some k || (kind == "diverge") != (k + 20 > n) then throw (.bad s!"wchain.wint fin: recomputed {k}")
     | _ => throw (.bad "wchain.wint fin")
-    if k + 20 > n then
-      let changes := (st.toList.filter (!·)).length
+    -- the widening of wrapped intervals at least doubles the size or jumps to a threshold (delayed steps are joins):
+    -- a chain has at most w + #thresholds + delay non-stationary steps, however they are spaced; more = divergence
+    let modeInts : Nat := match mode with | .list xs => xs.length | _ => 0
+    let bound := w + modeInts + 10
+    let changes := (st.toList.filter (!·)).length
+    if k + 20 > n && changes > bound then
       throw (.unsound s!"[C05][chain] wchain.wint width {w}: no stationary suffix after {n} widening steps (x_i <= x_i-1 fails at step {k - 1}, {changes} non-stationary steps)")
   match r with
   | .ok () => .ok
